@@ -601,29 +601,41 @@ class Exec:
         if op in ("u32overflowing_mul", "u32wrapping_mul"):
             b = self.pop(st) if not imm else const(int(imm[0])); a = self.pop(st)
             self.u32_operand(st, a, ins, ln); self.u32_operand(st, b, ins, ln)
-            h = st.new("h", U32 - 1)
+            hub = (a.ub * b.ub) >> 32
+            h = st.new("h", hub)
             st.defs[h] = ("mulhi", a.z * b.z)
-            self.push(st, Val(a.z * b.z - ZP.const(U32) * ZP.var(h), U32 - 1))
+            lub = U32 - 1
+            for x in (a, b):
+                cv = x.z.const_value()
+                if cv and cv & (cv - 1) == 0 and cv < U32:
+                    lub = U32 - cv          # (y * 2^s) mod 2^32 is a multiple of 2^s
+            self.push(st, Val(a.z * b.z - ZP.const(U32) * ZP.var(h), lub))
             if op.startswith("u32overflowing"):
-                self.push(st, Val(ZP.var(h), U32 - 1))
+                self.push(st, Val(ZP.var(h), hub))
             return
         if op in ("u32overflowing_madd", "u32wrapping_madd"):
             # docs: [b, a, c, ...] -> [hi, lo]: a * b + c
             b = self.pop(st); a = self.pop(st); c = self.pop(st)
             for x in (a, b, c):
                 self.u32_operand(st, x, ins, ln)
-            h = st.new("h", U32 - 1)
+            hub = (a.ub * b.ub + c.ub) >> 32
+            h = st.new("h", hub)
             st.defs[h] = ("mulhi", a.z * b.z + c.z)
             self.push(st, Val(a.z * b.z + c.z - ZP.const(U32) * ZP.var(h), U32 - 1))
             if op.startswith("u32overflowing"):
-                self.push(st, Val(ZP.var(h), U32 - 1))
+                self.push(st, Val(ZP.var(h), hub))
             return
         if op in ("u32and", "u32or", "u32xor"):
             b = self.pop(st); a = self.pop(st)
             self.u32_operand(st, a, ins, ln); self.u32_operand(st, b, ins, ln)
-            n = st.new("w", U32 - 1)
+            ub_ = U32 - 1
+            if op == "u32and":
+                for x in (a, b):
+                    if x.z.const_value() is not None:
+                        ub_ = min(ub_, x.z.const_value())
+            n = st.new("w", ub_)
             st.defs[n] = (op, a, b)
-            self.push(st, Val(ZP.var(n), U32 - 1, tag=(op, a, b)))
+            self.push(st, Val(ZP.var(n), ub_, tag=(op, a, b)))
             return
         if op in ("u32clz", "u32ctz", "u32clo", "u32cto", "u32popcnt"):
             a = self.pop(st)
@@ -689,6 +701,10 @@ class Exec:
         if op == "pow2":
             a = self.pop(st)
             mode = st.case.get("pow2", "opaque")
+            if mode == "concrete":
+                self.push(st, const(st.case["pow2_value"]))
+                st.notes.append(("pow2", a.z, a.tag))
+                return
             if mode == "opaque":
                 t = st.new("T", 2 ** 63)
                 st.defs[t] = ("pow2", a)
